@@ -232,8 +232,18 @@ def allowedWrites : List Site := [
   -- the unexported type), so the caches are written and read by one run only — unless the run's
   -- own goroutines share it, which is the program's own (Go-semantics) sharing.
   ⟨"internal/runtime/vm.go", "(*callable).Native", "assign", "callable.native", "c.native", "8577aa58ccb2"⟩,
-  ⟨"internal/runtime/vm.go", "(*callable).Value", "assign", "callable.value", "c.value", "21a09bcdccaa"⟩,
-  ⟨"internal/runtime/vm.go", "(*callable).Value", "assign", "callable.value", "c.value", "5c353557149c"⟩]
+  -- (*callable).Value has three assignments of the cache since 0117338 (native functions that take a
+  -- native.Env are handed out as values of the type the Scriggo code sees): the reflect.MakeFunc
+  -- of a Scriggo function (5c35…), `c.value = withoutEnv(reflect.ValueOf(c.native.function), env)`
+  -- for a native function, and `c.value = withoutEnv(c.value, env)` when the callable was built
+  -- around a reflect.Value. withoutEnv returns its argument or a fresh MakeFunc that closes over
+  -- `env`, the environment of the run that executes Value: the stored value may now carry that
+  -- run's env (it did already for Scriggo functions: `create(env)`), which is harmless for the
+  -- same reason — the callable itself belongs to one run (`storedValues` marks the three perRun,
+  -- root "callable"; `no_shared_location_holds_per_run_value` below).
+  ⟨"internal/runtime/vm.go", "(*callable).Value", "assign", "callable.value", "c.value", "5c353557149c"⟩,
+  ⟨"internal/runtime/vm.go", "(*callable).Value", "assign", "callable.value", "c.value", "70f875657dca"⟩,
+  ⟨"internal/runtime/vm.go", "(*callable).Value", "assign", "callable.value", "c.value", "c10b4aff3f87"⟩]
 
 /-- the functions in which a `callable` is allocated: all of them execute as part of a run -/
 def runTimeFunctions : List String :=
